@@ -249,4 +249,75 @@ theorem loadDoc_objects_nd (file : Bytes) (L : Loaded) (h : loadDoc file = .ok L
   unfold loadDoc loadDocOrd loadDocOrd2 at h
   exact loadDocWith_objects_nd _ _ (by intro bs b hb; simpa using hb) file L h
 
+/-! ### the trailer of a loaded document -/
+
+theorem decodeXrefStream_nd (d : Dict) (c : Bytes) (x : XTable) (n : Nat) (tr : Dict) (hd : DictND d)
+    (h : decodeXrefStream d c = .ok (x, n, tr)) : DictND tr := by
+  have key : ∀ (o : Outcome XTable) (sz : Nat), (match o with
+      | .ok x => (Outcome.ok (x, sz, ((d.remove LENGTH).remove W_KEY).remove INDEX) : Outcome (XTable × Nat × Dict))
+      | .err e => .err e | .panic s => .panic s) = .ok (x, n, tr) → DictND tr := by
+    intro o sz ho
+    cases o with
+    | ok x0 => simp at ho; rw [← ho.2.2]; exact dictND_remove (dictND_remove (dictND_remove hd _) _) _
+    | err e => simp at ho
+    | panic s => simp at ho
+  unfold decodeXrefStream at h
+  repeat' split at h
+  all_goals (first | (cases h; done) | skip)
+  all_goals (try (split at h <;> first | (cases h; done) | skip))
+  all_goals (first | exact key _ _ h | skip)
+  all_goals (simp only at h; split at h)
+  all_goals (first | (cases h; done) | exact key _ _ h)
+
+theorem xrefStreamAlt_nd (inp : Bytes) (x : XTable) (n : Nat) (tr : Dict)
+    (h : xrefAndTrailer.xrefStreamAlt inp = .ok (x, n, tr)) : DictND tr := by
+  unfold xrefAndTrailer.xrefStreamAlt at h
+  split at h
+  · rename_i d c hp
+    have := pIndirect_nd _ _ _ _ _ _ hp
+    simp only [LObjND] at this
+    exact decodeXrefStream_nd d c x n tr ((deepND_stream d c).mp this) h
+  · rename_i d p hp
+    have := pIndirect_nd _ _ _ _ _ _ hp
+    exact decodeXrefStream_nd d [] x n tr this h
+  · cases h
+
+theorem xrefAndTrailer_nd (inp : Bytes) (x : XTable) (n : Nat) (tr : Dict) (h : xrefAndTrailer inp = .ok (x, n, tr)) : DictND tr := by
+  unfold xrefAndTrailer at h
+  repeat' split at h
+  all_goals (first | (cases h; done) | skip)
+  all_goals (first
+    | exact xrefStreamAlt_nd _ _ _ _ h
+    | (cases h; exact pTrailer_nd _ _ _ (by assumption)))
+
+theorem prevLoop_nd (buf : Bytes) : ∀ (fuel : Nat) (p : Option Obj) (seen : List Int) (x : XTable) (tr : Dict) (x' : XTable) (tr' : Dict),
+    DictND tr → prevLoop buf fuel p seen x tr = .ok (x', tr') → DictND tr' := by
+  intro fuel
+  induction fuel with
+  | zero => intro p seen x tr x' tr' ht h; simp [prevLoop] at h; rw [← h.2]; exact ht
+  | succ k ih =>
+    intro p seen x tr x' tr' ht h
+    unfold prevLoop at h
+    repeat' split at h
+    all_goals (first | (cases h; done) | (cases h; exact ht) | skip)
+    all_goals (simp only at h; split at h)
+    all_goals (first | (cases h; done) | exact ih _ _ _ _ _ _ (dictND_remove ht _) h)
+
+/-- **the trailer of a document `Reader::read` returns is distinct-keyed**, classic trailer or cross-reference stream dictionary,
+any `Prev` chain -/
+theorem loadDocWith_trailer_nd (arr : List Block → List Block) (arr2 : List ObjId → List ObjId)
+    (file : Bytes) (L : Loaded) (h : loadDocWith arr arr2 file = .ok L) : DictND L.trailer := by
+  unfold loadDocWith at h
+  simp only at h
+  repeat' split at h
+  all_goals (first | (cases h; done) | skip)
+  all_goals (cases h)
+  all_goals (exact prevLoop_nd _ _ _ _ _ _ _ _ (dictND_remove (xrefAndTrailer_nd _ _ _ _ (by assumption)) _) (by assumption))
+
+/-- **a loaded document is distinct-keyed** — trailer and every object: the `DistinctKeys` hypothesis of the `delete_object`
+theorems holds for every document the reader returns (and, by `distinct_run`, for everything the editing calls make of it) -/
+theorem loaded_distinct (arr : List Block → List Block) (arr2 : List ObjId → List ObjId) (harr : ∀ bs, ∀ b ∈ arr bs, b ∈ bs)
+    (file : Bytes) (L : Loaded) (h : loadDocWith arr arr2 file = .ok L) : DictND L.trailer ∧ ObjsND L.objects :=
+  ⟨loadDocWith_trailer_nd arr arr2 file L h, loadDocWith_objects_nd arr arr2 harr file L h⟩
+
 end Lopdf.Ed
